@@ -18,6 +18,9 @@ From IndModel Require Keys.
 From IndModel Require Padded.
 From IndGen Require Import Constants.
 From IndProofs Require Import TabsProofs TabsEnvProofs.
+From IndModel Require Locks BracketsC01 BracketsC16.
+From IndGen Require LockFootprints.
+From IndProofs Require BracketsC16Proofs.
 From Coq Require SpecFloat.
 From Coq Require Import NArith List.
 From Coq Require String.
@@ -148,7 +151,36 @@ Theorem C16_expand_spec : forall (s : text) (w : N),
 Proof. intros s w. exact (conj (expand_no_tab s w) (conj (expand_notab s w) (expand_length s w))). Qed.
 Print Assumptions C16_expand_spec.
 
+(** Every theorem above takes a call as ONE step: read the tab width, build the TabExpandedString,
+    store it, draw.  That is sound against other threads holding clones of the handle only if
+    the call is a single outermost critical section over the bar mutex.  Tied to the source: for
+    every op of the alphabet and every Rust method it stands for, on EVERY path of the method's
+    lock footprint (table regenerated from /repo/src on every run, tools/locks_extract.py):
+    exactly one section over the bar mutex, the draw (MultiState lock), BarState::tick and every
+    callback inside it, the mutex never given up in between - at most one for `tick` (nothing
+    happens while a steady ticker runs); `drop` runs with exclusive ownership and never takes it.
+    A set_message that reads the width in one section and stores the text in a second one
+    (seeded defect C16-5) breaks this obligation. *)
+Theorem C16_calls_atomic : forall (o : op) (name : String.string),
+  In name (BracketsC16.c16_call o) ->
+  exists p, Locks.pg_lookup name LockFootprints.all_programs = Some p /\
+            forall tr, Locks.paths p tr -> BracketsC16.c16_atomic name tr.
+Proof. exact BracketsC16Proofs.c16_calls_atomic. Qed.
+Print Assumptions C16_calls_atomic.
+
 (** Non-vacuity and sanity. *)
+(* set_message has a path; the two-section shape of the seeded defect is rejected *)
+Section AtomicExample.
+Import String.
+Example C16_ex_set_message_path :
+  (exists p tr, Locks.pg_lookup "ProgressBar::set_message"%string LockFootprints.all_programs = Some p
+                /\ Locks.paths p tr)
+  /\ ~ BracketsC16.c16_atomic "ProgressBar::set_message"%string
+        [Locks.CAcq Locks.CBar; Locks.CRel Locks.CBar; Locks.CAcq Locks.CBar; Locks.CAcq Locks.CMulti;
+         Locks.CRel Locks.CMulti; Locks.CRel Locks.CBar].
+Proof. exact (conj BracketsC16Proofs.set_message_has_path BracketsC16Proofs.split_sections_rejected). Qed.
+End AtomicExample.
+
 (* the model's default template is the crate's "{wide_bar} {pos}/{len}", its default width 8;
    KEY_POS / KEY_LEN are the positions of "pos" / "len" in the crate's key list *)
 Section KeyNames.
